@@ -21,6 +21,9 @@ type C10Case struct {
 	Chunks   [][]byte `json:"chunks"`
 	Entry    []string `json:"entry"` // write | readlen | readplain, per chunk
 	Detect   bool     `json:"detection_only,omitempty"`
+	// CtlLimit: a larger limit is configured and a rule lowers it to Limit for this transaction
+	// (ctl:requestBodyLimit in phase 1, ctl:responseBodyLimit in phase 3): the limit in force is still Limit
+	CtlLimit bool `json:"ctl_limit,omitempty"`
 }
 
 // plainReader hides Len() so the reader-based entry point cannot know the size in advance.
@@ -34,6 +37,7 @@ func genC10(t *rapid.T) *C10Case {
 	c.Limit = rapid.IntRange(1, 64).Draw(t, "limit")
 	c.MemLimit = rapid.IntRange(1, c.Limit).Draw(t, "memlimit")
 	c.Action = rapid.SampledFrom([]string{"Reject", "ProcessPartial"}).Draw(t, "action")
+	c.CtlLimit = rapid.IntRange(0, 3).Draw(t, "ctllimit") == 0
 	// total size biased to each threshold +-1
 	targets := []int{0, 1, c.MemLimit - 1, c.MemLimit, c.MemLimit + 1, c.Limit - 1, c.Limit, c.Limit + 1, c.Limit + 7, c.Limit + 40, c.Limit / 2}
 	total := rapid.SampledFrom(targets).Draw(t, "total")
@@ -87,12 +91,22 @@ func (c *C10Case) conf(mem int) string {
 	var sb strings.Builder
 	sb.WriteString("SecRuleEngine On\n")
 	if c.Side == "req" {
-		fmt.Fprintf(&sb, "SecRequestBodyAccess On\nSecRequestBodyLimit %d\nSecRequestBodyInMemoryLimit %d\nSecRequestBodyLimitAction %s\n", c.Limit, mem, c.Action)
+		configured := c.Limit
+		if c.CtlLimit {
+			configured = c.Limit*2 + 10
+			fmt.Fprintf(&sb, "SecAction \"id:9,phase:1,pass,nolog,ctl:requestBodyLimit=%d\"\n", c.Limit)
+		}
+		fmt.Fprintf(&sb, "SecRequestBodyAccess On\nSecRequestBodyLimit %d\nSecRequestBodyInMemoryLimit %d\nSecRequestBodyLimitAction %s\n", configured, mem, c.Action)
 		sb.WriteString("SecRule REQUEST_BODY \"@unconditionalMatch\" \"id:1,phase:2,pass\"\n")
 		sb.WriteString("SecRule INBOUND_DATA_ERROR \"@eq 1\" \"id:2,phase:2,pass\"\n")
 		sb.WriteString("SecRule ARGS_POST \"@unconditionalMatch\" \"id:3,phase:2,pass\"\n")
 	} else {
-		fmt.Fprintf(&sb, "SecResponseBodyAccess On\nSecResponseBodyMimeType text/plain\nSecResponseBodyLimit %d\nSecResponseBodyLimitAction %s\n", c.Limit, c.Action)
+		configured := c.Limit
+		if c.CtlLimit {
+			configured = c.Limit*2 + 10
+			fmt.Fprintf(&sb, "SecAction \"id:9,phase:3,pass,nolog,ctl:responseBodyLimit=%d\"\n", c.Limit)
+		}
+		fmt.Fprintf(&sb, "SecResponseBodyAccess On\nSecResponseBodyMimeType text/plain\nSecResponseBodyLimit %d\nSecResponseBodyLimitAction %s\n", configured, c.Action)
 		sb.WriteString("SecRule RESPONSE_BODY \"@unconditionalMatch\" \"id:1,phase:4,pass\"\n")
 		sb.WriteString("SecRule OUTBOUND_DATA_ERROR \"@eq 1\" \"id:2,phase:4,pass\"\n")
 	}
@@ -392,6 +406,9 @@ func checkC10(c *C10Case) Result {
 				res.Labels = append(res.Labels, "rejected")
 			}
 			res.Labels = append(res.Labels, "side:"+c.Side, "action:"+c.Action)
+			if c.CtlLimit {
+				res.Labels = append(res.Labels, "limit-lowered-by-ctl:"+c.Side)
+			}
 			for _, e := range c.Entry {
 				res.Labels = append(res.Labels, "entry:"+e)
 			}
